@@ -186,3 +186,56 @@ func canonRes(s string, unordered bool) string {
 }
 
 func osWriteFile(name string, data []byte) error { return os.WriteFile(name, data, 0o644) }
+
+// internShared makes deep-equal non-empty maps / lists inside v share ONE Go value (the case
+// lines carry plain trees; sharing is re-established here): a Map may reference the same
+// sub-map or list from several places without being cyclic.
+func internShared(v interface{}) {
+	first := map[string]interface{}{}
+	var walk func(x interface{}) interface{}
+	walk = func(x interface{}) interface{} {
+		switch t := x.(type) {
+		case map[string]interface{}:
+			for k, e := range t {
+				t[k] = walk(e)
+			}
+			if len(t) == 0 {
+				return x
+			}
+			key := "m" + enc(t)
+			if f, ok := first[key]; ok {
+				return f
+			}
+			first[key] = t
+		case []interface{}:
+			for i, e := range t {
+				t[i] = walk(e)
+			}
+			if len(t) == 0 {
+				return x
+			}
+			key := "l" + enc(t)
+			if f, ok := first[key]; ok {
+				return f
+			}
+			first[key] = t
+		}
+		return x
+	}
+	walk(v)
+}
+
+// withDuplicates copies one map- or list-valued entry of m under a second key (so that
+// internShared finds something to share).
+func (r *Rng) withDuplicates(m map[string]interface{}) {
+	for _, k := range sortedKeys(m) {
+		switch m[k].(type) {
+		case map[string]interface{}, []interface{}:
+			m["dup"] = deepCopy(m[k])
+			if sub, ok := m[k].(map[string]interface{}); ok && r.Bool() {
+				sub["dup2"] = deepCopy(m[k])
+			}
+			return
+		}
+	}
+}
